@@ -29,7 +29,7 @@ from .. import core, engine_h, world
 
 ID = "C07"
 LEVEL = "exploration"
-MAIN_CLAUSES = ["used_le_supplied_call", "used_le_supplied_month", "ne_le_requirement", "grass_only_ruminants",
+MAIN_CLAUSES = ["requirement_matches_tables", "used_le_supplied_call", "used_le_supplied_month", "ne_le_requirement", "grass_only_ruminants",
                 "strict_priority", "priority_order_key", "fed_le_herd", "fed_eq_herd_iff_met", "fed_fraction",
                 "starving_remainder", "starving_nonneg"]
 RULE = (
@@ -170,8 +170,12 @@ def monitor(t, V):
             if herd != herd_call:
                 bump("herd_at_call_differs_from_population_list")
             ref_R = engine_h.ne_per_head(code, typ) * herd
-            if abs(ref_R - R) > 1e-9 * max(ref_R, R) + 1e-15:
-                bump("requirement_differs_from_tables")
+            # the requirement the code works with must be the species' requirement: LSU x energy per
+            # livestock unit x regional factor of THIS country x herd (read from the tables by the harness)
+            check("requirement_matches_tables", abs(ref_R - R) <= 1e-9 * max(ref_R, R) + 1e-15,
+                  {},
+                  lambda: {"month": m, "animal_type": typ, "herd": herd, "requirement_used": R, "requirement_from_tables": ref_R},
+                  "the energy requirement used for a species differs from LSU x energy per LSU x regional factor x herd")
             g, f = g0 - g1, f0 - f1
             tot_g += g
             tot_f += f
